@@ -165,7 +165,7 @@ package filters
 // EOF, checksum mismatch - is an error, never a shorter result) and only within the output limit
 //@ func zlibDecompress results (out, rerr)
 //@   property C05, C02
-//@   flags pure, nosafety
+//@   flags pure
 //@   atreturn data_only_when_the_inflater_reported_no_error: !err && n <= maxInflatedSize
 
 // /Predictor 1 = none, 2 = TIFF predictor 2, 10..15 = PNG predictors (the per-row tag decides), anything else is an error
